@@ -147,6 +147,15 @@ func (s *skSigner) Sign(rnd io.Reader, data []byte) (*ssh.Signature, error) {
 	return nil, fmt.Errorf("skSigner: unsupported key %T", s.priv)
 }
 
+// algOnly hides everything but the AlgorithmSigner interface.
+type algOnly struct{ s ssh.AlgorithmSigner }
+
+func (a algOnly) PublicKey() ssh.PublicKey { return a.s.PublicKey() }
+func (a algOnly) Sign(rnd io.Reader, data []byte) (*ssh.Signature, error) { return a.s.Sign(rnd, data) }
+func (a algOnly) SignWithAlgorithm(rnd io.Reader, data []byte, alg string) (*ssh.Signature, error) {
+	return a.s.SignWithAlgorithm(rnd, data, alg)
+}
+
 // caVariant is one way of signing as a CA.
 type caVariant struct {
 	Name      string
@@ -178,9 +187,16 @@ func loadCAs() ([]*caVariant, error) {
 		add("ec384", "ec384", p["ec384"].Signer, "ecdsa-sha2-nistp384", "")
 		add("ec521", "ec521", p["ec521"].Signer, "ecdsa-sha2-nistp521", "")
 		add("dsa", "dsa", p["dsa"].Signer, "ssh-dss", "")
-		// ssh-rsa keys: SignCert documents rsa-sha2-512 as default for AlgorithmSigners
-		add("rsa1024-default", "rsa1024", p["rsa1024"].Signer, "rsa-sha2-512", "rsa-sha2-512")
-		add("rsa2048-default", "rsa2048", p["rsa2048"].Signer, "rsa-sha2-512", "rsa-sha2-512")
+		// ssh-rsa keys. SignCert documents: a MultiAlgorithmSigner signs with the first
+		// algorithm of its list; any other AlgorithmSigner for an ssh-rsa key with rsa-sha2-512.
+		for _, n := range []string{"rsa1024", "rsa2048"} {
+			format := "rsa-sha2-512"
+			if ms, ok := p[n].Signer.(ssh.MultiAlgorithmSigner); ok {
+				format = ms.Algorithms()[0]
+			}
+			add(n+"-default", n, p[n].Signer, format, format)
+			add(n+"-algsigner-only", n, algOnly{p[n].Signer.(ssh.AlgorithmSigner)}, "rsa-sha2-512", "rsa-sha2-512")
+		}
 		for _, algs := range [][]string{{"rsa-sha2-256"}, {"rsa-sha2-512"}, {"ssh-rsa"}, {"rsa-sha2-256", "rsa-sha2-512"}, {"ssh-rsa", "rsa-sha2-256"}} {
 			ms, err := ssh.NewSignerWithAlgorithms(p["rsa1024"].Signer.(ssh.AlgorithmSigner), algs)
 			if err != nil {
